@@ -12,7 +12,7 @@ PROPS = {
         "explanation": "exhaustive: all 256^2 pairs of mul/div/add, fma for 6 accumulators x all pairs, all 258 alpha exponents, all three derived tables; 256^3 triples for associativity/distributivity are covered by the Field instance (theorem) and replayed directly on the implementation",
     },
     "C15": {
-        "thm_modules": ["Rq.Thm.C15", "Rq.Thm.C15b", "Rq.Thm.Tables", "Rq.Thm.Src"],
+        "thm_modules": ["Rq.Thm.C15", "Rq.Thm.C15b", "Rq.Thm.Tables", "Rq.Thm.Src", "Rq.Thm.SrcCor"],
         "engines": [("params", "release"), ("params", "debug"), ("tables", "release")],
         "modelled": ["u32 arithmetic as naturals with explicit wrap (release) / error (checked build)", "the `for`/`while` loops of enc_indices as fuel recursion (termination is theorem skipPi_terminates)"],
         "assumptions": [RFC_TABLES, "systematic constants: exhaustive over K = 0..56404; tuples: boundary-directed + random X per sampled Table-2 row, in a checked and an unchecked build"],
@@ -62,14 +62,14 @@ PROPS = {
         "assumptions": ["solver_irrelevant carries the explicit hypothesis that the standard system of this block is consistent (true whenever A(K') is invertible; evaluated for all 477 K' by C06's engine, not a kernel theorem)"],
     },
     "C13": {
-        "thm_modules": ["Rq.Thm.C13", "Rq.Thm.Src"],
+        "thm_modules": ["Rq.Thm.C13", "Rq.Thm.Src", "Rq.Thm.SrcCor"],
         "engines": [("wire", "release"), ("workload", "release"), ("workload", "debug")],
         "nostd_workload": True,
         "modelled": ["Vec<u8>/array plumbing of base.rs (extend_from_slice, Vec::from)"],
         "assumptions": ["bytes are modelled as naturals < 256; u8/u16/u32/u64 casts of base.rs written as % and /"],
     },
     "C19": {
-        "thm_modules": ["Rq.Thm.C19", "Rq.Thm.Src"],
+        "thm_modules": ["Rq.Thm.C19", "Rq.Thm.Src", "Rq.Thm.SrcCor"],
         "engines": [("otinew", "release"), ("otinew", "debug"), ("workload", "release"), ("workload", "debug")],
         "nostd_workload": True,
         "modelled": ["assert!/assert_eq! as Option.none"],
